@@ -69,6 +69,8 @@ type Exec struct {
 	StepCap  bool
 	Diverged string
 	Bubble   string // recovered bubble panic text
+	// Abandoned: the bubble was left with blocked goroutines (hung or leaking execution)
+	Abandoned bool
 	W        *World
 	States   []uint64
 	ConfSig  uint64
@@ -298,6 +300,14 @@ func RunOnce(t *testing.T, sc *Scenario, prefix []int, expect [][]string) (x *Ex
 			x.Leaked = nil
 		}
 		x.ConfSig, x.Conflict = conflictSig(s)
+		if x.Hang || len(x.Leaked) > 0 {
+			// Threads of the code under test are stuck in the middle of its critical
+			// sections; unwinding them is not safe. The bubble is abandoned instead (its
+			// goroutines stay blocked for the life of the worker); synctest reports that
+			// as a deadlock panic, recovered above.
+			x.Abandoned = true
+			return
+		}
 		s.AbortAll()
 		synctest.Wait()
 	})
